@@ -15,6 +15,7 @@ import S3V.Driver.M2
 import S3V.Driver.Bandwidth
 import S3V.Driver.Crt
 import S3V.Driver.ProcPool
+import S3V.Driver.Serial
 
 namespace S3V.Driver
 
@@ -35,6 +36,7 @@ def step (st : DState) (line : String) : DState × String :=
   match toks with
   | ["reset"] => (DState.init, "ok")
   | "plan" :: rest => (st, planStep rest)
+  | "serial" :: rest => (st, serialStep rest)
   | "pp" :: rest => let r := ppStep st.pp rest; ({ st with pp := r.1 }, r.2)
   | "crt" :: rest => let r := crtStep st.crt rest; ({ st with crt := r.1 }, r.2)
   | "bw" :: rest => let r := bwStep st.bw rest; ({ st with bw := r.1 }, r.2)
